@@ -6,7 +6,7 @@
 (* calls the routines and compares with the printed answers.                   *)
 EXTENDS Structural, Json
 
-CONSTANTS Mode,      \* "dir" | "und" | "part" | "prod" | "gen"
+CONSTANTS Mode,      \* "dir" | "und" | "part" | "prod" | "gen" | "grid"
           NMin, NMax, \* node counts enumerated
           Salt,      \* weight salt (VERIF_SEED)
           Palette    \* "part": colours a partial colouring may use
@@ -18,11 +18,44 @@ DirGraphs == UNION {{[V |-> 1 .. n, E |-> D] : D \in SUBSET DirPairs(n)} : n \in
 UndGraphs(lo, hi) == UNION {{[V |-> 1 .. n, E |-> Sym(U)] : U \in SUBSET UPairs(n)} : n \in lo .. hi}
 
 None == 99   \* "uncoloured" in a partial colouring
+
+(* "grid": the FULL small grid of the deterministic generators.  Model ids 1 .. NMax for the listed nodes,    *)
+(* NMax + 1 for the centre of Star / Wheel, NMax + 2 for a node that is no argument of the call (it is only   *)
+(* there in a pre-populated destination).  Per generator: every node count NMin .. NMax x id listings         *)
+(* (ascending, descending, a rotation chosen by Salt, and - for the documented panic - the ascending listing  *)
+(* with the id at place i repeated at place j, every i < j) x (Star, Wheel) the centre apart from the leaves  *)
+(* or equal to the leaf at any place x (Tree) every fan-out 0 .. NMax + 1 x destination empty or              *)
+(* pre-populated ("foreign": the first listed node, a foreign node and an edge between them; "overlap": the   *)
+(* first two listed nodes and the edge second -> first).  What the call adds to a pre-populated destination   *)
+(* is the same node and edge set: the result is the union (gonum: NodeWithID hands back the node that is      *)
+(* already there, SetEdge adds to what is there).                                                             *)
+GCtr == NMax + 1
+GForeign == NMax + 2
+Asc(n) == [i \in 1 .. n |-> i]
+Desc(n) == [i \in 1 .. n |-> n + 1 - i]
+Rot(n) == [i \in 1 .. n |-> ((i + Salt) % n) + 1]
+Listings(n) == {Asc(n), Desc(n), Rot(n)}
+DupListings(n) == {[Asc(n) EXCEPT ![p[2]] = p[1]] : p \in {q \in (1 .. n) \X (1 .. n) : q[1] < q[2]}}
+PreKinds == {"none", "foreign", "overlap"}
+GridCases ==
+    UNION {
+      [kind : {"Complete", "Path", "Cycle"}, fan : {1}, ids : Listings(n) \cup DupListings(n), ctr : {GCtr}, pre : PreKinds]
+      \cup [kind : {"Star", "Wheel"}, fan : {1}, ids : DupListings(n), ctr : {GCtr}, pre : PreKinds]
+      \cup UNION {[kind : {"Star", "Wheel"}, fan : {1}, ids : {l}, ctr : {GCtr} \cup Rng(l), pre : PreKinds] : l \in Listings(n)}
+      \cup [kind : {"Tree"}, fan : 0 .. NMax + 1, ids : Listings(n) \cup DupListings(n), ctr : {GCtr}, pre : PreKinds]
+      : n \in NMin .. NMax}
+PreNodes(pre, ids) == CASE pre = "none" -> {}
+                        [] pre = "foreign" -> {GForeign} \cup (IF Len(ids) > 0 THEN {ids[1]} ELSE {})
+                        [] pre = "overlap" -> IF Len(ids) >= 2 THEN {ids[1], ids[2]} ELSE {}
+PreEdges(pre, ids) == CASE pre = "none" -> {}
+                        [] pre = "foreign" -> IF Len(ids) > 0 THEN {<<GForeign, ids[1]>>} ELSE {}
+                        [] pre = "overlap" -> IF Len(ids) >= 2 /\ ids[1] # ids[2] THEN {<<ids[2], ids[1]>>} ELSE {}
 Cases == CASE Mode = "dir"  -> DirGraphs
            [] Mode = "und"  -> UndGraphs(NMin, NMax)
            [] Mode = "part" -> UNION {{[V |-> h.V, E |-> h.E, part |-> p] : p \in [h.V -> Palette \cup {None}]} : h \in UndGraphs(NMin, NMax)}
            [] Mode = "prod" -> {[a |-> x, b |-> y] : x \in UndGraphs(0, NMax), y \in UndGraphs(0, NMax)}
            [] Mode = "gen"  -> [kind : {"Complete", "Path", "Cycle", "Star", "Wheel", "Tree"}, fan : 1 .. 3, ids : UNION {[1 .. n -> 1 .. NMax] : n \in 0 .. NMax}]
+           [] Mode = "grid" -> GridCases
 
 Init == c \in Cases
 Next == UNCHANGED c
@@ -68,25 +101,30 @@ ProdRec(a, b) ==
      prods |-> [kind \in ProductKinds |->
                  {pq \in ProductEdges(kind, a.V, a.E, b.V, b.E) : pq[1][1] < pq[2][1] \/ (pq[1][1] = pq[2][1] /\ pq[1][2] < pq[2][2])}]]
 
-Injective(s) == \A i \in DOMAIN s : \A j \in DOMAIN s : i # j => s[i] # s[j]
 GenRec(kind, fan, ids) ==
-    LET n == Len(ids)
-        ctr == NMax                                       \* centre id for Star / Wheel: may collide with a leaf
-        hasC == kind \in {"Star", "Wheel"}
-        dup == ~Injective(ids) \/ (hasC /\ n > 0 /\ ctr \in Rng(ids))
-        \* documented panics: an id appearing twice (only detectable with >= 2 ids, or a leaf = centre);
-        \* Tree: fan-out must be non-zero and less than the number of nodes when there is more than one node
-        pan == IF kind = "Tree" THEN n > 1 /\ (n <= fan \/ dup)
-               ELSE IF hasC THEN dup
-               ELSE n >= 2 /\ dup
+    LET ctr == NMax                                       \* centre id for Star / Wheel: may collide with a leaf
+        pan == GenPanics(kind, ids, ctr, fan)             \* the documented panics
     IN [k |-> "gen", kind |-> kind, fan |-> fan, ids |-> ids, ctr |-> ctr, panic |-> pan,
+        pre |-> [kind |-> "none", nodes |-> {}, edges |-> {}], nmodel |-> NMax + 1,
         nodes |-> IF pan THEN {} ELSE GenNodes(kind, ids, ctr),
         edges |-> IF pan THEN {} ELSE GenEdges(kind, ids, ctr, fan)]
+
+GridRec(kind, fan, ids, ctr, pre) ==
+    LET pan == GenPanics(kind, ids, ctr, fan)
+    IN [k |-> "gen", kind |-> kind, fan |-> fan, ids |-> ids, ctr |-> ctr, panic |-> pan,
+        pre |-> [kind |-> pre, nodes |-> PreNodes(pre, ids), edges |-> PreEdges(pre, ids)], nmodel |-> GForeign,
+        nodes |-> IF pan THEN {} ELSE GenNodes(kind, ids, ctr) \cup PreNodes(pre, ids),
+        edges |-> IF pan THEN {} ELSE GenEdges(kind, ids, ctr, fan) \cup PreEdges(pre, ids)]
+\* R1 on the generator definitions, evaluated with every enumerated case: the two formulations of each shape
+\* agree, degrees / sizes / connectivity are those of the named graph, and the panic rule of the old "gen"
+\* record is the module's GenPanics
+GridOK == Mode = "grid" => GenShapeOK(c.kind, Len(c.ids), c.fan)
 
 Rec == CASE Mode = "dir"  -> DirRec(c.V, c.E)
          [] Mode = "und"  -> UndRec(c.V, c.E)
          [] Mode = "part" -> PartRec(c.V, c.E, c.part)
          [] Mode = "prod" -> ProdRec(c.a, c.b)
          [] Mode = "gen"  -> GenRec(c.kind, c.fan, c.ids)
+         [] Mode = "grid" -> GridRec(c.kind, c.fan, c.ids, c.ctr, c.pre)
 EmitInv == PrintT(ToJson(Rec))
 =============================================================================
